@@ -1,5 +1,6 @@
 (* C07 — scan results are repeatable and independent of worker scheduling. *)
-From CPF Require Import Scan.Merge Scan.MergeFacts Scan.Pool Scan.PoolFacts.
+From CPF Require Import Base.Skel Scan.Merge Scan.MergeFacts Scan.Pool Scan.PoolFacts Scan.PoolSkel.
+From CPF.gen Require Import Tables.
 From Coq Require Import Permutation.
 
 (* (a) the merge: any two arrival orders of the same per-file graphs give the same entities and
@@ -31,3 +32,20 @@ Theorem C07_delivers : forall files w readable s,
   Permutation (merged s) (filter readable files).
 Proof. exact pool_delivers. Qed.
 Print Assumptions C07_delivers.
+
+(* ... once Initialize has returned the progress display has stopped for good, and nothing the caller
+   can observe changes any more (before the repair "the progress display stops before the scan returns"
+   the updater kept writing its clear-screen sequence into the caller's output) *)
+Theorem C07_quiescent : forall files w readable s s',
+  reachable files w readable s -> main s = Done ->
+  star (length files) w readable s s' ->
+  status s' = GExited /\ merged s' = merged s /\ main s' = Done.
+Proof. exact pool_quiescent_forever. Qed.
+Print Assumptions C07_quiescent.
+
+(* (c) the transition system above is the one of the CURRENT source: the goroutines of graph.Initialize with
+   their channel, wait-group and goroutine operations, as the translator extracts them from /repo on every
+   run (gen/Tables.v), are statement for statement the program Scan/Pool.v models (Scan/PoolSkel.v) *)
+Theorem C07_skeleton : pool_program = pool_program_modelled.
+Proof. exact pool_program_matches. Qed.
+Print Assumptions C07_skeleton.
